@@ -221,7 +221,8 @@ def check_render(what, err, expected, limit):
 
 
 def _case(payload):
-    kind, depth, W = payload
+    kind, depth, W = payload[:3]
+    copies = payload[3] if len(payload) > 3 else False
     import uberjob
     from uberjob._util import traceback as tb
 
@@ -236,8 +237,11 @@ def _case(payload):
     msgs = []
     for n in static_nodes:
         msgs += check_chain(f"{kind} (node {getattr(n.fn, '__name__', n.fn)}, static)", n.stack_frame, expected, limit)
+    run_plan, run_reg = (plan.copy(), reg.copy()) if copies else (plan, reg)
+    if copies:
+        kind = kind + " [run on Plan.copy()/Registry.copy()]"
     try:
-        uberjob.run(plan, output=out, registry=None if (noreg or not needs_reg) else reg, max_workers=W, progress=None)
+        uberjob.run(run_plan, output=out, registry=None if (noreg or not needs_reg) else run_reg, max_workers=W, progress=None)
         msgs.append((f"{kind}: no error", f"{kind}: run did not fail"))
         return msgs, len(expected)
     except uberjob.CallError as e:
@@ -289,6 +293,7 @@ def _output_gather_case(payload):
 
 def run(tier):
     cases = [(k, d, W) for k in SITES for d in DEPTHS for W in (1, 2)]
+    cases += [(k, d, 1, True) for k in SITES for d in (0, 2, 5)]
     res = [_case(c) for c in cases]
     oc = [(d, W) for d in DEPTHS for W in (1, 2)]
     res2 = [_output_gather_case(c) for c in oc]
@@ -298,7 +303,7 @@ def run(tier):
         depths_seen.add(nframes)
         for key, m in msgs:
             viols.append(common.Violation(PROP, key, f"depth {c[1]} ({nframes} real frames), {c[2]} worker(s): {m}",
-                                          {"engine": "E3", "kind": c[0], "depth": c[1], "W": c[2]}))
+                                          {"engine": "E3", "kind": c[0], "depth": c[1], "W": c[2], "copies": len(c) > 3 and c[3] is True}))
     cov = {
         "evaluations": len(cases) + len(oc),
         "distinct_nontrivial": len({(c[0], c[1]) for c in cases}) + len(DEPTHS),
@@ -316,7 +321,7 @@ def replay(rep):
     if rep["kind"] == "output gather built by run":
         msgs, _ = _output_gather_case((rep["depth"], rep["W"]))
     else:
-        msgs, _ = _case((rep["kind"], rep["depth"], rep["W"]))
+        msgs, _ = _case((rep["kind"], rep["depth"], rep["W"], rep.get("copies", False)))
     for k, m in msgs:
         print("ORACLE:", m)
     return [m for k, m in msgs]
